@@ -285,9 +285,18 @@ func DecodeAlstSampleGroupEntry(name string, length uint32, sr bits.SliceReader)
 		entry.SampleOffset[i] = sr.ReadUint32()
 	}
 
+	if sr.AccError() != nil {
+		return nil, sr.AccError()
+	}
+	if uint64(entry.Size()) > uint64(length) {
+		return nil, fmt.Errorf("alst: roll_count %d does not fit in description length %d", entry.RollCount, length)
+	}
 	remaining := int(length-uint32(entry.Size())) / 4
 	if remaining <= 0 {
 		return entry, sr.AccError()
+	}
+	if remaining*4 > sr.NrRemainingBytes() {
+		return nil, fmt.Errorf("alst: description length %d exceeds available data", length)
 	}
 
 	// Optional
